@@ -284,4 +284,6 @@ func checkC07(c *vh.Ctx) {
 	fertPoolRunStage(c, c.N(10, 100))
 	// harvest branch of Nitro, resid, pinit (c07_harvest.go)
 	harvestStages(c)
+	// after the older stages (their random streams are unchanged)
+	risingTableRuns(c, c.N(6, 60))
 }
